@@ -2,9 +2,9 @@
  * per-type factories of valid arguments, value snapshots of the other arguments, classification of the returned
  * value, and the fork-per-case driver.
  *
- * usage: null_guard <listfile>        lines "<row id> <runtime level>"
+ * usage: null_guard <listfile>        lines "<row id> <variant letter m|z|n|a> <runtime level>"
  * One output line per case:
- *   E row=<id> level=<n> ended=<returned|exit|crash|signal> rv=<class> changed=<0|1> heapdelta=<n> diag=<none|warning|debug|fatal|asan>
+ *   E row=<id> variant=<m|z|n|a> level=<n> ended=<returned|exit|crash|signal> rv=<class> changed=<0|1> heapdelta=<n> diag=<none|warning|debug|fatal|asan>
  *     status=<n> info=<first line of the diagnostic, blanks as _>
  */
 #ifndef NULL_GUARD_RT_H
@@ -111,8 +111,9 @@ static int ng_changed(void) { return ng_snaplen[0] != ng_snaplen[1] || memcmp(ng
 /* ---- the measured window and the returned value ----------------------------------------------------------------- */
 static size_t ng_h0, ng_h1;
 static char ng_rv[48] = "UNSET";
-#define NG_CALL_BEGIN() (ng_h0 = __sanitizer_get_current_allocated_bytes())
-#define NG_CALL_END()   (ng_h1 = __sanitizer_get_current_allocated_bytes())
+static unsigned ng_level;          /* the runtime debug level is in force for the call itself only (factories and snapshots run at 0) */
+#define NG_CALL_BEGIN() (libast_debug_level = ng_level, ng_h0 = __sanitizer_get_current_allocated_bytes())
+#define NG_CALL_END()   (ng_h1 = __sanitizer_get_current_allocated_bytes(), libast_debug_level = 0)
 static void ng_rv_bool(spif_bool_t v) { strcpy(ng_rv, v == FALSE ? "FALSE" : (v == TRUE ? "TRUE" : "BOOL_OTHER")); }
 static void ng_rv_cmp(spif_cmp_t v) {
     strcpy(ng_rv, v == SPIF_CMP_LESS ? "CMP_LESS" : (v == SPIF_CMP_EQUAL ? "CMP_EQUAL" : (v == SPIF_CMP_GREATER ? "CMP_GREATER" : "CMP_OTHER")));
@@ -124,24 +125,24 @@ static void ng_rv_ptr(const void *p) { strcpy(ng_rv, p ? "NONNULL" : "NULL"); }
 static void ng_rv_typename(const char *p) { strcpy(ng_rv, !p ? "NULL" : (!strncmp(p, "{ ((spif_", 9) ? "TYPENAME" : "NONNULL")); }
 static void ng_rv_void(void) { strcpy(ng_rv, "VOID"); }
 
-struct ng_case { int id; void (*fn)(void); };
+struct ng_case { int id; char variant; void (*fn)(void); };
 #endif /* NULL_GUARD_RT_H */
 
 /* second inclusion, after the generated NG_CASES table:  #define NG_MAIN  +  #include "null_guard_rt.h" */
 #if defined(NG_MAIN) && !defined(NG_MAIN_DONE)
 #define NG_MAIN_DONE
-static const struct ng_case *ng_find(int id) {
+static const struct ng_case *ng_find(int id, char variant) {
     size_t k;
-    for (k = 0; k < sizeof(NG_CASES) / sizeof(NG_CASES[0]); k++) if (NG_CASES[k].id == id) return &NG_CASES[k];
+    for (k = 0; k < sizeof(NG_CASES) / sizeof(NG_CASES[0]); k++) if (NG_CASES[k].id == id && NG_CASES[k].variant == variant) return &NG_CASES[k];
     return NULL;
 }
 
-static void ng_run(int id, int level) {
-    const struct ng_case *c = ng_find(id);
+static void ng_run(int id, char variant, int level) {
+    const struct ng_case *c = ng_find(id, variant);
     int ep[2], rp[2], status = 0; pid_t pid; ssize_t n; size_t total = 0, kept = 0;
     static char err[1 << 15], tmp[1 << 15], res[256];
     const char *ended, *diag; char info[100]; size_t i, j;
-    if (!c) { printf("E row=%d level=%d ended=unknown_row\n", id, level); return; }
+    if (!c) { printf("E row=%d variant=%c level=%d ended=unknown_row\n", id, variant, level); return; }
     if (pipe(ep) || pipe(rp)) { perror("pipe"); exit(2); }
     fflush(stdout);
     pid = fork();
@@ -152,7 +153,8 @@ static void ng_run(int id, int level) {
         dup2(ep[1], 2); close(ep[1]);
         setvbuf(stderr, NULL, _IONBF, 0);
         alarm(10);
-        libast_debug_level = (unsigned) level;
+        libast_debug_level = 0;
+        ng_level = (unsigned) level;
         c->fn();
         len = snprintf(out, sizeof(out), "rv=%s changed=%d heapdelta=%ld", ng_rv, ng_changed(), (long) ng_h1 - (long) ng_h0);
         if (write(rp[1], out, (size_t) len) < 0) { }
@@ -186,8 +188,8 @@ static void ng_run(int id, int level) {
         info[j] = 0;
         if (!j) strcpy(info, "-");
     }
-    if (getenv("NG_VERBOSE")) fprintf(stderr, "---- row %d level %d: captured diagnostic ----\n%s\n", id, level, err);
-    printf("E row=%d level=%d ended=%s %s diag=%s status=%d info=%s\n", id, level, ended,
+    if (getenv("NG_VERBOSE")) fprintf(stderr, "---- row %d variant %c level %d: captured diagnostic ----\n%s\n", id, variant, level, err);
+    printf("E row=%d variant=%c level=%d ended=%s %s diag=%s status=%d info=%s\n", id, variant, level, ended,
            n > 0 ? res : "rv=- changed=0 heapdelta=0", diag, WIFEXITED(status) ? WEXITSTATUS(status) : 128 + WTERMSIG(status), info);
 }
 
@@ -202,8 +204,8 @@ int main(int argc, char **argv) {
     setvbuf(stdout, NULL, _IOLBF, 0);
     printf("CASES %lu\n", (unsigned long) (sizeof(NG_CASES) / sizeof(NG_CASES[0])));
     for (line = strtok_r(text, "\n", &save); line; line = strtok_r(NULL, "\n", &save)) {
-        int id, level;
-        if (sscanf(line, "%d %d", &id, &level) == 2) ng_run(id, level);
+        int id, level; char variant;
+        if (sscanf(line, "%d %c %d", &id, &variant, &level) == 3) ng_run(id, variant, level);
     }
     printf("DONE\n");
     free(text);
